@@ -78,8 +78,11 @@ def havoc_preexisting(ex, st, keep=()):
     st.axiom(z3.ForAll([r], z3.Implies(r >= ALLOC_BASE, z3.Select(new, r) == z3.Select(old, r))))
     if old.sort().range() == z3.IntSort() and key[1] not in ('len',):
       st.axiom(z3.ForAll([r], z3.Implies(r < ALLOC_BASE, z3.And(z3.Select(new, r) >= 0))))
-  # ghost containers (call logs, wire logs ...) are specification state: user code cannot touch them
-  for g, v in st.ghost.items():
+  # ghost containers (call logs, wire logs ...) are specification state: user code cannot touch them; the same goes
+  # for process-wide containers the contract files declare private to the framework (reg.private_containers)
+  protected = [(g, v) for g, v in st.ghost.items()]
+  protected += [(None, VRef('dict', z3.IntVal(r))) for r in getattr(ex.ctx.registry, 'private_containers', ())]
+  for g, v in protected:
     if isinstance(v, VRef) and v.cls in ('list', 'tuple', 'dict', 'set'):
       refs = [v.t]
       if v.cls in ('dict', 'set') and ('dict', 'keys') in before:
@@ -100,8 +103,16 @@ def havoc_preexisting(ex, st, keep=()):
     for ck in container_keys:
       if ck in before and not before[ck].eq(st.heap[ck]):
         st.axiom(z3.ForAll([r], z3.Select(st.heap[ck], cont) == z3.Select(before[ck], cont)))
+        for (key_, objt) in st.ghost.get('$private_reads', ()):
+          if key_ == (cname, fname):
+            g = z3.Select(slot, objt)
+            st.axiom(z3.Select(st.heap[ck], g) == z3.Select(before[ck], g))
     if kind.tag in ('dict', 'set') and ('dict', 'keys') in before:
       kl = z3.Select(before[('dict', 'keys')], cont)
       for ck in container_keys[:2]:
         if ck in before and not before[ck].eq(st.heap[ck]):
           st.axiom(z3.ForAll([r], z3.Select(st.heap[ck], kl) == z3.Select(before[ck], kl)))
+          for (key_, objt) in st.ghost.get('$private_reads', ()):
+            if key_ == (cname, fname):
+              g = z3.Select(before[('dict', 'keys')], z3.Select(slot, objt))
+              st.axiom(z3.Select(st.heap[ck], g) == z3.Select(before[ck], g))
